@@ -386,7 +386,7 @@ func genBlock(r *rnd, depth int, ord int) BlockM {
 			d.Iterator = "it"
 		}
 	}
-	switch r.n(4) {
+	switch r.n(5) {
 	case 0, 1:
 		bl := BlockM{Type: "b0", Dyn: d}
 		if d != nil {
@@ -412,6 +412,23 @@ func genBlock(r *rnd, depth int, ord int) BlockM {
 			bl.Labels = []string{fmt.Sprintf("lab%d", ord)}
 		}
 		bl.Body = BodyM{Attrs: []AttrM{{Name: "p", Expr: g.anyExpr(depth)}}}
+		return bl
+	case 3:
+		// typed blocks, decoded with BlockListSpec / BlockSetSpec / BlockMapSpec
+		ty := r.pick("tl", "ts", "tm")
+		bl := BlockM{Type: ty, Dyn: d}
+		if d != nil {
+			g.it = ty
+			if d.Iterator != "" {
+				g.it = d.Iterator
+			}
+			if ty == "tm" {
+				d.Labels = []string{fmt.Sprintf(`"m${%s.key}"`, g.it)}
+			}
+		} else if ty == "tm" {
+			bl.Labels = []string{fmt.Sprintf("m%d", ord)}
+		}
+		bl.Body = BodyM{Attrs: []AttrM{{Name: "s", Expr: g.str(depth)}}}
 		return bl
 	default:
 		// kv: arbitrary attributes, decoded with BlockAttrsSpec; never dynamic
@@ -528,7 +545,7 @@ func genVars(r *rnd, task int) []VarM {
 	// stand-ins for dynamic block iterators, so raw content expressions
 	// evaluate meaningfully outside an expansion
 	el := outerObj(r, tag+"i", base+900, 0)
-	for _, n := range []string{"it", "b0", "b1"} {
+	for _, n := range []string{"it", "b0", "b1", "tl", "ts", "tm"} {
 		add(n, objV([]string{"key", "value"}, nv(0), el))
 	}
 	ie := innerObj(tag+"j", 9, 9)
@@ -557,7 +574,13 @@ var opKinds = []string{
 
 // genCase generates a complete case from a run seed.  profile selects the
 // fault configuration: "nofault" or "fault".
-func genCase(seed uint64, profile string, deep bool) *Case {
+// coldKinds are the ops that need no catalogue of the configuration: a "cold"
+// case runs its concurrent phase before anything else has used the library in
+// this process (see runCase), so that first uses of process-global state
+// (package-level caches and lazily initialised tables) happen concurrently.
+var coldKinds = []string{"decode", "decode", "partial_decode", "expand_decode", "shared_expand_decode", "gohcl", "gohcl", "dec_vars", "expand_vars", "spec_misc", "merge_content", "implied_type"}
+
+func genCase(seed uint64, profile string, deep, cold bool) *Case {
 	r := &rnd{s: zzsim.Mix(seed, 1)}
 	c := &Case{Property: "C17", Seed: seed, Prelude: prelude}
 	depth := 2 + r.n(2)
@@ -591,7 +614,11 @@ func genCase(seed uint64, profile string, deep bool) *Case {
 			nops = 2 + r.n(6)
 		}
 		for o := 0; o < nops; o++ {
-			tm.Ops = append(tm.Ops, genOp(r))
+			op := genOp(r)
+			if cold {
+				op.Kind = coldKinds[r.n(len(coldKinds))]
+			}
+			tm.Ops = append(tm.Ops, op)
 		}
 		c.Tasks = append(c.Tasks, tm)
 	}
@@ -606,6 +633,9 @@ func genCase(seed uint64, profile string, deep bool) *Case {
 	}
 	c.ExpandCheck = r.chance(1, 3)
 	c.Pretouch = r.chance(1, 2)
+	if cold {
+		c.ConcFirst, c.Pretouch = true, false
+	}
 	c.MapSalt = r.u64() | 1
 	c.Faults.Seed = r.u64()
 	if profile == "fault" {
@@ -619,7 +649,7 @@ func genCase(seed uint64, profile string, deep bool) *Case {
 		if r.chance(1, 2) {
 			f.Slow = 32 << r.n(5)
 		}
-		if r.chance(1, 2) {
+		if r.chance(1, 2) && !cold {
 			f.Reenter = 32 << r.n(5)
 		}
 		if r.chance(1, 3) {
